@@ -1030,7 +1030,8 @@ func Throw(_ *VM, ball Term, _ Cont, env *Env) *Promise {
 
 // Catch calls goal. If an exception is thrown and unifies with catcher, it calls recover.
 func Catch(vm *VM, goal, catcher, recover Term, k Cont, env *Env) *Promise {
-	return catch(func(err error) *Promise {
+	var p *Promise
+	p = catch(func(err error) *Promise {
 		e, ok := err.(Exception)
 		if !ok {
 			e = Exception{term: atomError.Apply(NewAtom("system_error"), NewAtom(err.Error()))}
@@ -1043,8 +1044,14 @@ func Catch(vm *VM, goal, catcher, recover Term, k Cont, env *Env) *Promise {
 
 		return Call(vm, recover, k, env)
 	}, func(ctx context.Context) *Promise {
-		return Call(vm, goal, k, env)
+		// Once goal exits, the continuation is no longer protected by this catch/3.
+		return Call(vm, goal, func(env *Env) *Promise {
+			return exit(p, func(context.Context) *Promise {
+				return k(env)
+			})
+		}, env)
 	})
+	return p
 }
 
 // CurrentPredicate matches pi with a predicate indicator of the user-defined procedures in the database.
